@@ -327,6 +327,21 @@ func c20One(c *fw.Ctx, id string, i int, pool []string, exe string) {
 		spec.Names["fmt"] = "fmt"
 		c.Count("packages_with_line_directive_file", 1)
 	}
+	// a file whose imports are referenced only in type positions (constraint of a generic type,
+	// embedded field, field type, blank variable type): unedited, so it must stay byte-identical
+	if scenario != "parsedir-unedited" && i%3 == 1 {
+		dir := filepath.Dir(spec.Files[0])
+		fn := filepath.Join(dir, "zz_typeonly.go")
+		src := []byte("package gen\n\nimport (\n\t\"cmp\"\n\t\"io\"\n\t\"sort\"\n\t\"strings\"\n)\n\ntype Sorted[T cmp.Ordered] []T\n\ntype W struct {\n\tio.Writer\n\tb *strings.Builder\n}\n\nvar _ sort.Interface\n")
+		os.WriteFile(fn, src, 0644)
+		orig[fn] = src
+		spec.Files = append(spec.Files, fn)
+		spec.Edit = append(spec.Edit, false)
+		for _, n := range []string{"cmp", "io", "sort", "strings"} {
+			spec.Names[n] = n
+		}
+		c.Count("packages_with_type_only_imports_file", 1)
+	}
 	if scenario == "parsedir-unedited" {
 		spec.Mode = "parsedir"
 		spec.Dir = filepath.Dir(spec.Files[0])
